@@ -1,5 +1,6 @@
 (* Properties_C15.v -- C15 (solver part): solver objects are reusable; calls do not leak state.
-   Statements only; proofs in KrylovProofs.v.
+   Statements only; proofs in KrylovProofs.v (cg, richardson, bicgstab, gmres, fgmres, lgmres) and
+   KrylovProofs2*.v (bicgstabl, idrs, lgmres converged guess; second half of this file).
    Every mutable member of a solver object is a field of the workspace record that the model
    takes as INPUT ([junk]); "a call on a used object = a call on a fresh object" is independence
    of the observable result (iterations, residual, x -- [fst] of the model's output) from that
@@ -229,3 +230,46 @@ Theorem C15_bicgstabl_converged_guess (S : Scalar) (Srt : Sring S) (Seqb : seqb_
   fst (bicgstabl A P prm f x0 junk) = KOk (mkRes 0 (true_res norm_a A P left f x0 / nr) x0 false).
 Proof. exact (bicgstabl_converged_guess Srt Seqb n A P P_len P_lin left prm f x0 junk nr). Qed.
 Print Assumptions C15_bicgstabl_converged_guess.
+
+(* ---- A1 in the form of the property text: a call on a used object = a call on a fresh object ----
+   What junk independence needs from the workspace -- the allocated length of the vectors that are
+   cleared instead of assigned -- is what a call leaves behind, for ANY Scalar record (floats, NaN
+   included) and any length preserving operators, whatever exit the earlier call took: *)
+From Amgcl Require Import KrylovProofs2Reuse.
+Theorem C15_bicgstabl_workspace_stays_allocated (S : Scalar) n (A P : vec S -> vec S) prm f x0 junk :
+  (forall v, length v = n -> length (A v) = n) -> (forall v, length v = n -> length (P v) = n) ->
+  length f = n -> length x0 = n -> bl_sized n junk -> bl_sized n (snd (bicgstabl A P prm f x0 junk)).
+Proof. intros HA HP. exact (bicgstabl_sized_preserved_any n A P HA HP prm f x0 junk). Qed.
+Print Assumptions C15_bicgstabl_workspace_stays_allocated.
+
+Theorem C15_idrs_workspace_stays_allocated (S : Scalar) n (A P : vec S -> vec S) Sh prm f x0 junk :
+  (forall v, length v = n -> length (A v) = n) -> (forall v, length v = n -> length (P v) = n) ->
+  length f = n -> length x0 = n -> id_sized n (ip_s prm) junk -> id_sized n (ip_s prm) (snd (idrs A P Sh prm f x0 junk)).
+Proof. intros HA HP. exact (idrs_sized_preserved_any n A P HA HP Sh prm f x0 junk). Qed.
+Print Assumptions C15_idrs_workspace_stays_allocated.
+
+(* ... hence, as for CG and GMRES: the second call (other matrix, preconditioner, parameters, right-hand
+   side, initial guess) on a used object gives what a fresh object gives *)
+Theorem C15_bicgstabl_reuse (S : Scalar) n (A1 P1 A2 P2 : vec S -> vec S) prm1 prm2 f1 x1 f2 x2 (fresh1 fresh2 : bl_ws) :
+  (forall v, length v = n -> length (A1 v) = n) -> (forall v, length v = n -> length (P1 v) = n) ->
+  1 <= p_L prm2 -> length f1 = n -> length x1 = n -> bl_sized n fresh1 -> bl_sized n fresh2 ->
+  fst (bicgstabl A2 P2 prm2 f2 x2 (snd (bicgstabl A1 P1 prm1 f1 x1 fresh1))) = fst (bicgstabl A2 P2 prm2 f2 x2 fresh2).
+Proof. intros HA HP. exact (bicgstabl_reuse n A1 P1 HA HP A2 P2 prm1 prm2 f1 x1 f2 x2 fresh1 fresh2). Qed.
+Print Assumptions C15_bicgstabl_reuse.
+
+(* IDR(s): s is fixed by the constructor (it sizes M, f, c, G, U, P), so both calls have the same s *)
+Theorem C15_idrs_reuse (S : Scalar) n (A1 P1 A2 P2 : vec S -> vec S) Sh prm1 prm2 f1 x1 f2 x2 (fresh1 fresh2 : id_ws) :
+  (forall v, length v = n -> length (A1 v) = n) -> (forall v, length v = n -> length (P1 v) = n) ->
+  is_zero (@s0 S) = true -> ip_s prm1 = ip_s prm2 -> length f1 = n -> length x1 = n ->
+  id_sized n (ip_s prm1) fresh1 -> id_sized n (ip_s prm2) fresh2 ->
+  fst (idrs A2 P2 Sh prm2 f2 x2 (snd (idrs A1 P1 Sh prm1 f1 x1 fresh1))) = fst (idrs A2 P2 Sh prm2 f2 x2 fresh2).
+Proof. intros HA HP Hz. exact (idrs_reuse n A1 P1 HA HP Hz A2 P2 Sh prm1 prm2 f1 x1 f2 x2 fresh1 fresh2). Qed.
+Print Assumptions C15_idrs_reuse.
+
+(* the allocation hypotheses are satisfiable, and the theorems apply to a run that iterates *)
+Example C15_sized_satisfiable :
+  let jv := repeat (qc 9 2) 2 in
+  let w : @id_ws QcS := mkIdWs (fun _ _ => qc 9 2) (fun _ => qc 9 2) (fun _ => qc 9 2) jv jv jv jv jv (fun _ => jv) (fun _ => jv) in
+  let b : @bl_ws QcS := mkBlWs jv jv jv jv (fun _ => jv) (fun _ => jv) in
+  id_sized 2 3 w /\ bl_sized 2 b.
+Proof. split; [intros i Hi; split; reflexivity | split; reflexivity]. Qed.
